@@ -68,13 +68,31 @@ def gen_retry(srcdir, problems):
     recv2 = ast.get_source_segment(src, retry[0].func.value)
     # statements after the try inside fit_model (none expected) and anything that swallows the error
     filt = False
+    by_text = False
+    # the text of the inaccuracy warning and the way warnings are attributed, from the installed cvxpy
+    inaccurate_text = "Solution may be inaccurate. Try another solver, adjusting the solver settings, or solve with verbose=True for more information."
+    try:
+        import cvxpy.utilities.warn  # noqa: F401  (present in the releases that attribute warnings to the calling module)
+
+        to_caller = True
+    except ImportError:
+        to_caller = False
+    import re as _re
+
     for n in tree.body:
         if isinstance(n, ast.Expr) and isinstance(n.value, ast.Call) and attr_path(n.value.func) == "warnings.filterwarnings":
             a = n.value
             if a.args and isinstance(a.args[0], ast.Constant) and a.args[0].value == "error":
                 kw = {k.arg: ast.get_source_segment(src, k.value) for k in a.keywords}
-                if kw.get("category") == "UserWarning" and kw.get("module") == '"cvxpy"':
+                if kw.get("category") == "UserWarning" and kw.get("module") == '"cvxpy"' and "message" not in kw:
                     filt = True
+                msg = [k.value for k in a.keywords if k.arg == "message"]
+                if kw.get("category") == "UserWarning" and "module" not in kw and msg and isinstance(msg[0], ast.Constant) and isinstance(msg[0].value, str):
+                    try:
+                        if msg[0].value and _re.match(msg[0].value, inaccurate_text, _re.I):
+                            by_text = True
+                    except _re.error:
+                        pass
     # the solver's signature, from the installed package
     try:
         from elexsolver.QuantileRegressionSolver import QuantileRegressionSolver as Q
@@ -94,6 +112,8 @@ def gen_retry(srcdir, problems):
     out.append(f"Definition retry_call_kw : list (string * string) := {clist([f'({cstr(a)}, {cstr(b)})' for a, b in k2])}.\n")
     out.append(f"Definition except_types : list string := {clist([cstr(x) for x in exc])}.\n")
     out.append(f"Definition cvxpy_warnings_are_errors : bool := {'true' if filt else 'false'}.\n")
+    out.append(f"Definition inaccuracy_matched_by_text : bool := {'true' if by_text else 'false'}.\n")
+    out.append(f"Definition cvxpy_attributes_warnings_to_caller : bool := {'true' if to_caller else 'false'}.\n")
     return "".join(out), [{"name": "retry", "ok": True}]
 
 
